@@ -16,7 +16,8 @@ from . import build
 from .props import PROPS
 
 VERIF = build.VERIF
-EVIDENCE_DIR = os.path.join(VERIF, "evidence")
+# evidence of runs against a scratch copy (VERIF_REPO set: mutants, seeded changes) must not overwrite the registered evidence
+EVIDENCE_DIR = os.path.join(VERIF, "evidence") if os.path.realpath(build.REPO) == "/repo" else os.path.join(build.SCRATCH, "evidence-other-repo")
 REPLAY_DIR = os.path.join(VERIF, "replays")
 KNOWN_FILE = os.path.join(VERIF, "known_findings.json")
 
@@ -79,7 +80,13 @@ def run_stage(pid, st, tier, seed, rundir, idx):
     for sh in range(nshards):
         out = os.path.join(rundir, "s%d-%d.json" % (idx, sh))
         cmd = _worker_cmd(exe, pid, st, tier, seed, sh, nshards, out)
-        p = subprocess.Popen(cmd, stdout=subprocess.PIPE, stderr=subprocess.STDOUT, env=env, cwd=rundir)
+        try:
+            p = subprocess.Popen(cmd, stdout=subprocess.PIPE, stderr=subprocess.STDOUT, env=env, cwd=rundir)
+        except FileNotFoundError:
+            # the cache entry was pruned by a concurrent build of another tree: rebuild and retry once
+            exe = build.ensure(st["flavour"], st.get("L", 2048))
+            cmd[0] = exe
+            p = subprocess.Popen(cmd, stdout=subprocess.PIPE, stderr=subprocess.STDOUT, env=env, cwd=rundir)
         procs.append((p, out, cmd))
     results = []
     machinery = []
